@@ -302,6 +302,9 @@ func (f *Frame) callEffects(ci ssa.CallInstruction) effects {
 			eff.all = true
 			break
 		}
+		if p.fc.ModHeap {
+			eff.comps["*heap"] = true
+		}
 		ks, ok := f.modifiesComps(p)
 		if !ok {
 			eff.all = true
@@ -815,7 +818,10 @@ func (f *Frame) applyContract(p callPlan, args []Val, st *State, reach Term, whe
 				st.heap[k] = v
 			}
 		}
-	} else if len(fc.Modifies) > 0 {
+	} else if len(fc.Modifies) > 0 || fc.ModHeap {
+		if fc.ModHeap {
+			c.havocHeap(st)
+		}
 		ts, err := f.modTargets(p, env)
 		if err != nil {
 			c.oblige("error", fmt.Sprintf("%s#call:%s", shortFn(f.fn), short), reach, tFalse, "contract error: "+err.Error())
